@@ -18,3 +18,9 @@ func init() {
 		Stage{Engine: "clusterrun", Mode: "requests", Race: true, BatchesQ: 6, BatchesT: 12, Par: 6, TimeoutQ: 900, TimeoutT: 5400,
 			RaceAttr: []string{"(*RequestState)", "(*pendingProposal)", "(*proposalShard)", "(*pendingReadIndex)", "(*pendingConfigChange)", "(*pendingSnapshot)", "(*pendingRaftLogQuery)"}})
 }
+
+func init() {
+	addStages("C20", "exploration", []string{
+		"E2: real NodeHosts on strict in-memory file systems; the exported directory is copied file by file to the hosts that import it",
+	}, Stage{Engine: "clusterrun", Mode: "importer", BatchesQ: 6, BatchesT: 16, Par: 6, TimeoutQ: 900, TimeoutT: 3600})
+}
